@@ -49,3 +49,10 @@ split. reflexivity.
 rewrite Qval, E10val. vm_compute (rem (new (of_Z 3) (of_Z 4))). unfold B2R, F2R.
 cbv -[IZR Rmult Rinv Rle Rlt Rminus Rdiv Rplus Ropp]. lra.
 Qed.
+
+(* associative up to four addition tolerances (each association is within two of the real sum) *)
+Theorem C03_add_assoc : forall a b c, canonp (rem a) -> canonp (rem b) -> canonp (rem c) ->
+  Rabs (theta (geometric_add (geometric_add a b) c) - theta (geometric_add a (geometric_add b c)))
+    <= 4 * (R_ eps10 + / 2251799813685248).
+Proof. exact geometric_add_assoc. Qed.
+Print Assumptions C03_add_assoc.
